@@ -6,14 +6,16 @@ import CollectionsC.Properties.C18List
 
 Statements and closing proofs for `cc_list.c` and `cc_slist.c`.
 
-Every allocating path is covered: one node (`add`, `add_first`, `add_last`, `add_at`, iterator `add`),
+Every allocating path is covered: the header (`new`), one node (`add`, `add_first`, `add_last`, `add_at`, iterator `add`),
 the node loop of `add_all`/`add_all_at` (`link_all_externally`: a refusal at the k-th node releases the
 k−1 copies made so far), the array of `to_array`/`sort`, the second node of a zip-iterator `add` (the
 first one is released again), and the builders `sublist`/`copy_*`/`filter` (header, then one node per
 element; a refusal destroys the partial result).
 
-Quantifiers: all states satisfying the invariant with their blocks live, all operations and
-arguments, **every** allocator schedule (`m.sched` is arbitrary: the k-th call refused for every k,
+Quantifiers: all states satisfying the invariant with their blocks live, every assignment of
+allocator triples to the lists (only the configured allocator can refuse; a list on the C library
+triple never reports `CC_ERR_ALLOC`, see `C14List`), all operations and arguments, **every**
+allocator schedule (`m.sched` is arbitrary: the k-th call refused for every k,
 several refusals, …).  "A refusal fired" is `m.nrefused < m'.nrefused` (the ledger's refusal counter). -/
 namespace CC.Properties.C08List
 open CC CC.Chain CC.ListHistory
@@ -22,112 +24,171 @@ open CC.Spec.LSeq (Op Out Params)
 
 /-! ## the status is `CC_ERR_ALLOC` exactly when a refusal fired -/
 
-theorem dlist_refused_iff (P : Params) (s : Chain × Chain) (op : Op) (m : Mem) (h : PairOk s m) :
-    (DList.step P s op m).1.st = some .errAlloc ↔ m.nrefused < (DList.step P s op m).2.2.nrefused := by
-  have hs : s = (ofList s.1.abs, ofList s.2.abs) := by rw [← h.1.eq, ← h.2.1.eq]
-  obtain ⟨a', b', ok⟩ := DList.step_ok P s.1.abs s.2.abs m h.2.2 op
-  rw [← hs] at ok
-  exact ok.refused_iff
+theorem dlist_refused_iff (P : Params) (s : Chain × Chain) (op : Op) (m : Mem) (h : PairOk s m)
+    (hc : SpliceOk s.1.triple s.2.triple op) :
+    (DList.step P s op m).1.st = some .errAlloc ↔ m.nrefused < (DList.step P s op m).2.2.nrefused :=
+  (C04.dlist_step_refines P s op m h hc).2.2.2.2.2.2.2.2
 
-theorem slist_refused_iff (P : Params) (s : Chain × Chain) (op : Op) (m : Mem) (h : PairOk s m) :
-    (SList.step P s op m).1.st = some .errAlloc ↔ m.nrefused < (SList.step P s op m).2.2.nrefused := by
-  have hs : s = (ofList s.1.abs, ofList s.2.abs) := by rw [← h.1.eq, ← h.2.1.eq]
-  obtain ⟨a', b', ok⟩ := SList.step_ok P s.1.abs s.2.abs m h.2.2 op
-  rw [← hs] at ok
-  exact ok.refused_iff
+theorem slist_refused_iff (P : Params) (s : Chain × Chain) (op : Op) (m : Mem) (h : PairOk s m)
+    (hc : SpliceOk s.1.triple s.2.triple op) :
+    (SList.step P s op m).1.st = some .errAlloc ↔ m.nrefused < (SList.step P s op m).2.2.nrefused :=
+  (C04.slist_step_refines P s op m h hc).2.2.2.2.2.2.2.2
 
 /-- builders (`sublist`, `copy_shallow`, `copy_deep`, `filter` of both lists) -/
-theorem builder_refused_iff (add : List Nat) (m : Mem) :
-    (DList.builderResult add m).1 = .errAlloc ↔ m.nrefused < (DList.builderResult add m).2.2.nrefused :=
-  DList.builderResult_refused_iff add m
+theorem builder_refused_iff (t : Triple) (add : List Nat) (m : Mem) :
+    (DList.builderResult t add m).1 = .errAlloc ↔ m.nrefused < (DList.builderResult t add m).2.2.nrefused :=
+  DList.builderResult_refused_iff t add m
 
 /-! ## atomicity -/
 
+/-- **constructors** `cc_list_new(_conf)` / `cc_slist_new(_conf)`: the status is `CC_ERR_ALLOC` exactly when
+the header was refused; then no object exists and no `liveT` moved; otherwise an empty list in
+canonical state on the requested triple, one block obtained from it; never a fault -/
+theorem new_atomic (t : Triple) (m : Mem) :
+    ((DList.new t m).1 = .errAlloc ↔ m.nrefused < (DList.new t m).2.2.nrefused) ∧
+    ((DList.new t m).1 = .errAlloc → (DList.new t m).2.1 = none ∧ ∀ t', (DList.new t m).2.2.liveT t' = m.liveT t') ∧
+    ((DList.new t m).1 ≠ .errAlloc → (DList.new t m).1 = .ok ∧ (DList.new t m).2.1 = some (ofList t []) ∧
+      ∀ t', (DList.new t m).2.2.liveT t' = m.liveT t' + (if t = t' then 1 else 0)) ∧
+    (DList.new t m).2.2.fault = m.fault ∧ SList.new t m = DList.new t m := by
+  have hn := Mem.allocT_nrefused m t
+  have hs : SList.new t m = DList.new t m := by rw [SList.new_eq, DList.new_eq]
+  by_cases ha : (m.allocT t).1 = true
+  · have e := Mem.allocT_all_true m t ha
+    have hv : DList.new t m = (.ok, some (ofList t []), (m.allocT t).2) := by rw [DList.new_eq, if_pos ha]
+    rw [ha] at hn
+    rw [hs, hv]
+    refine ⟨⟨fun c => (by cases c), fun c => ?_⟩, fun c => (by cases c), fun _ => ⟨rfl, rfl, e.2.2⟩, e.1, rfl⟩
+    simp only [if_true] at hn c; omega
+  · have ha' : (m.allocT t).1 = false := by simpa using ha
+    have e := Mem.allocT_all_false m t ha'
+    have hv : DList.new t m = (.errAlloc, none, (m.allocT t).2) := by rw [DList.new_eq, if_neg ha]
+    rw [ha'] at hn
+    rw [hs, hv]
+    refine ⟨⟨fun _ => ?_, fun _ => rfl⟩, fun _ => ⟨rfl, e.2.2⟩, fun c => absurd rfl c, e.1, rfl⟩
+    simp only [Bool.false_eq_true, if_false] at hn ⊢; omega
+
 /-- a refused step reports `CC_ERR_ALLOC` and nothing else, leaves **both lists physically unchanged**
-(nodes, `size`, `head`, `tail` — in particular `abs`), keeps the invariant and the ledger
-consistent: `live` is what it was (every block obtained before the refusal was released again),
-no fault -/
+(nodes, `size`, `head`, `tail`, triple — in particular `abs`), keeps the invariant and the ledger
+consistent: every `liveT` is what it was (every block obtained before the refusal was released
+again, through the allocator that handed it out), no fault -/
 theorem dlist_atomic (P : Params) (s : Chain × Chain) (op : Op) (m : Mem) (h : PairOk s m)
+    (hc : SpliceOk s.1.triple s.2.triple op)
     (he : (DList.step P s op m).1.st = some .errAlloc) :
     (DList.step P s op m).1 = { st := some .errAlloc } ∧ (DList.step P s op m).2.1 = s ∧
-    (DList.step P s op m).2.2.live = m.live ∧ (DList.step P s op m).2.2.fault = m.fault ∧
+    (∀ t, (DList.step P s op m).2.2.liveT t = m.liveT t) ∧ (DList.step P s op m).2.2.fault = m.fault ∧
     PairOk (DList.step P s op m).2.1 (DList.step P s op m).2.2 := by
-  have r := C04.dlist_step_refines P s op m h
-  exact ⟨(r.2.1 he).1, (r.2.1 he).2.1, (r.2.1 he).2.2, r.2.2.2.1, r.1⟩
+  have r := C04.dlist_step_refines P s op m h hc
+  exact ⟨(r.2.2.1 he).1, (r.2.2.1 he).2.1, (r.2.2.1 he).2.2, r.2.2.2.2.1, r.1⟩
 
 theorem slist_atomic (P : Params) (s : Chain × Chain) (op : Op) (m : Mem) (h : PairOk s m)
+    (hc : SpliceOk s.1.triple s.2.triple op)
     (he : (SList.step P s op m).1.st = some .errAlloc) :
     (SList.step P s op m).1 = { st := some .errAlloc } ∧ (SList.step P s op m).2.1 = s ∧
-    (SList.step P s op m).2.2.live = m.live ∧ (SList.step P s op m).2.2.fault = m.fault ∧
+    (∀ t, (SList.step P s op m).2.2.liveT t = m.liveT t) ∧ (SList.step P s op m).2.2.fault = m.fault ∧
     PairOk (SList.step P s op m).2.1 (SList.step P s op m).2.2 := by
-  have r := C04.slist_step_refines P s op m h
-  exact ⟨(r.2.1 he).1, (r.2.1 he).2.1, (r.2.1 he).2.2, r.2.2.2.1, r.1⟩
+  have r := C04.slist_step_refines P s op m h hc
+  exact ⟨(r.2.2.1 he).1, (r.2.2.1 he).2.1, (r.2.2.1 he).2.2, r.2.2.2.2.1, r.1⟩
 
 /-- a refused iterator `add` leaves the list **and the cursor** unchanged (ascending and descending
-iterator of `cc_list.c`, iterator of `cc_slist.c`); `live` unchanged -/
-theorem iter_add_refused (xs : List Nat) (x : Nat) (m : Mem) (hr : m.alloc.1 = false) :
+iterator of `cc_list.c`, iterator of `cc_slist.c`); every `liveT` unchanged -/
+theorem iter_add_refused (t : Triple) (xs : List Nat) (x : Nat) (m : Mem) (hr : (m.allocT t).1 = false) :
     (∀ (c : LSeq.Cursor) (it : DList.Iter) (k : Nat), DList.ItRel xs c it → c.cur = some k → c.pos = k + 1 →
-      DList.iterAdd (ofList xs) it x m = (.errAlloc, ofList xs, it, m.alloc.2)) ∧
+      DList.iterAdd (ofList t xs) it x m = (.errAlloc, ofList t xs, it, (m.allocT t).2)) ∧
     (∀ (c : LSeq.Cursor) (it : DList.Iter) (k : Nat), DList.DitRel xs c it → c.cur = some k → c.pos = k →
-      DList.diterAdd (ofList xs) it x m = (.errAlloc, ofList xs, it, m.alloc.2)) ∧
+      DList.diterAdd (ofList t xs) it x m = (.errAlloc, ofList t xs, it, (m.allocT t).2)) ∧
     (∀ (c : LSeq.Cursor) (it : SList.Iter) (k : Nat), SList.ItRel xs c it → c.cur = some k →
-      SList.iterAdd (ofList xs) it x m = (.errAlloc, ofList xs, it, m.alloc.2)) ∧
-    m.alloc.2.live = m.live := by
-  refine ⟨?_, ?_, ?_, (Mem.alloc_fst_false m hr).1⟩
+      SList.iterAdd (ofList t xs) it x m = (.errAlloc, ofList t xs, it, (m.allocT t).2)) ∧
+    (∀ t', (m.allocT t).2.liveT t' = m.liveT t') := by
+  refine ⟨?_, ?_, ?_, (Mem.allocT_all_false m t hr).2.2⟩
   · intro c it k h hc hp
-    obtain ⟨it', e, _⟩ := DList.iterAdd_ofList xs c it x k m h hc hp
+    obtain ⟨it', e, _⟩ := DList.iterAdd_ofList (t := t) xs c it x k m h hc hp
     rw [e]; simp [hr]
   · intro c it k h hc hp
-    obtain ⟨it', e, _⟩ := DList.diterAdd_ofList xs c it x k m h hc hp
+    obtain ⟨it', e, _⟩ := DList.diterAdd_ofList (t := t) xs c it x k m h hc hp
     rw [e]; simp [hr]
   · intro c it k h hc
-    obtain ⟨it', e, _⟩ := SList.iterAdd_ofList xs c it x k m h hc
+    obtain ⟨it', e, _⟩ := SList.iterAdd_ofList (t := t) xs c it x k m h hc
     rw [e]; simp [hr]
 
-/-- a zip-iterator `add` refused at the first or at the second node leaves both lists and the
-cursor unchanged; the first node of a half-done `add` is released again (`live` unchanged) -/
-theorem zip_add_refused (xs ys : List Nat) (c : LSeq.Cursor) (z : DList.ZipIter) (x1 x2 k : Nat) (m : Mem)
+/-- ledger of a zip `add` refused at the first or at the second node: every `liveT` is what it was
+(the first node of a half-done `add` goes back through the first list's triple), no fault -/
+theorem zip_refused_ledger (t t2 : Triple) (m : Mem) :
+    ((m.allocT t).1 = false → (m.allocT t).2.fault = m.fault ∧ ∀ t', (m.allocT t).2.liveT t' = m.liveT t') ∧
+    ((m.allocT t).1 = true → ((m.allocT t).2.allocT t2).1 = false →
+      (((m.allocT t).2.allocT t2).2.freeT t).fault = m.fault ∧ ∀ t', (((m.allocT t).2.allocT t2).2.freeT t).liveT t' = m.liveT t') := by
+  refine ⟨fun h1 => ⟨(Mem.allocT_all_false m t h1).1, (Mem.allocT_all_false m t h1).2.2⟩, fun h1 h2 => ?_⟩
+  have e1 := Mem.allocT_all_true m t h1
+  have e2 := Mem.allocT_all_false _ t2 h2
+  have e3 := Mem.freeT_all ((m.allocT t).2.allocT t2).2 t (by rw [e2.2.2, e1.2.2]; simp)
+  refine ⟨by rw [e3.1, e2.1, e1.1], fun t' => ?_⟩
+  have := e3.2.2 t'; have := e2.2.2 t'; have := e1.2.2 t'; omega
+
+/-- a zip-iterator `add` of `cc_list.c` refused at the first or at the second node leaves both lists
+and the cursor unchanged; every `liveT` unchanged -/
+theorem dlist_zip_add_refused (t t2 : Triple) (xs ys : List Nat) (c : LSeq.Cursor) (z : DList.ZipIter) (x1 x2 k : Nat) (m : Mem)
     (h : DList.ZipRel xs ys c z) (hc : c.cur = some k) (hp : c.pos = k + 1)
-    (hr : m.alloc.1 = false ∨ m.alloc.2.alloc.1 = false) :
-    (DList.zipAdd (ofList xs) (ofList ys) z x1 x2 m).1 = .errAlloc ∧
-    (DList.zipAdd (ofList xs) (ofList ys) z x1 x2 m).2.1 = ofList xs ∧
-    (DList.zipAdd (ofList xs) (ofList ys) z x1 x2 m).2.2.1 = ofList ys ∧
-    (DList.zipAdd (ofList xs) (ofList ys) z x1 x2 m).2.2.2.1 = z ∧
-    (DList.zipAdd (ofList xs) (ofList ys) z x1 x2 m).2.2.2.2.live = m.live := by
-  obtain ⟨z', e, _⟩ := DList.zipAdd_ofList xs ys c z x1 x2 k m h hc hp
+    (hr : (m.allocT t).1 = false ∨ ((m.allocT t).2.allocT t2).1 = false) :
+    (DList.zipAdd (ofList t xs) (ofList t2 ys) z x1 x2 m).1 = .errAlloc ∧
+    (DList.zipAdd (ofList t xs) (ofList t2 ys) z x1 x2 m).2.1 = ofList t xs ∧
+    (DList.zipAdd (ofList t xs) (ofList t2 ys) z x1 x2 m).2.2.1 = ofList t2 ys ∧
+    (DList.zipAdd (ofList t xs) (ofList t2 ys) z x1 x2 m).2.2.2.1 = z ∧
+    (DList.zipAdd (ofList t xs) (ofList t2 ys) z x1 x2 m).2.2.2.2.fault = m.fault ∧
+    (∀ t', (DList.zipAdd (ofList t xs) (ofList t2 ys) z x1 x2 m).2.2.2.2.liveT t' = m.liveT t') := by
+  obtain ⟨z', e, _⟩ := DList.zipAdd_ofList (t := t) (t2 := t2) xs ys c z x1 x2 k m h hc hp
+  obtain ⟨l1, l2⟩ := zip_refused_ledger t t2 m
   rw [e]
-  by_cases h1 : m.alloc.1 = true
-  · have h2 : m.alloc.2.alloc.1 = false := by
+  by_cases h1 : (m.allocT t).1 = true
+  · have h2 : ((m.allocT t).2.allocT t2).1 = false := by
       rcases hr with hr | hr
       · rw [h1] at hr; cases hr
       · exact hr
-    have e1 := Mem.alloc_fst_true m h1
-    have e2 := Mem.alloc_fst_false m.alloc.2 h2
-    have e3 := Mem.free_live m.alloc.2.alloc.2 (by omega)
-    have ev : (if m.alloc.1 = true then
-        (if m.alloc.2.alloc.1 = true then
-          (Stat.ok, ofList (LSeq.zitAdd false xs ys c x1 x2).1, ofList (LSeq.zitAdd false xs ys c x1 x2).2.1, z', m.alloc.2.alloc.2)
-        else (Stat.errAlloc, ofList xs, ofList ys, z, m.alloc.2.alloc.2.free))
-      else (Stat.errAlloc, ofList xs, ofList ys, z, m.alloc.2)) = (Stat.errAlloc, ofList xs, ofList ys, z, m.alloc.2.alloc.2.free) := by
-      rw [if_pos h1, if_neg (by rw [h2]; simp)]
-    rw [ev]
-    exact ⟨rfl, rfl, rfl, rfl, by show m.alloc.2.alloc.2.free.live = m.live; omega⟩
-  · have h1' : m.alloc.1 = false := by simpa using h1
+    rw [if_pos h1, if_neg (by rw [h2]; simp)]
+    exact ⟨rfl, rfl, rfl, rfl, (l2 h1 h2).1, (l2 h1 h2).2⟩
+  · have h1' : (m.allocT t).1 = false := by simpa using h1
     rw [if_neg h1]
-    exact ⟨rfl, rfl, rfl, rfl, (Mem.alloc_fst_false m h1').1⟩
+    exact ⟨rfl, rfl, rfl, rfl, (l1 h1').1, (l1 h1').2⟩
+
+/-- the same for the zip iterator of `cc_slist.c` -/
+theorem slist_zip_add_refused (t t2 : Triple) (xs ys : List Nat) (c : LSeq.Cursor) (z : SList.ZipIter) (x1 x2 k : Nat) (m : Mem)
+    (h : SList.ZipRel xs ys c z) (hc : c.cur = some k)
+    (hr : (m.allocT t).1 = false ∨ ((m.allocT t).2.allocT t2).1 = false) :
+    (SList.zipAdd (ofList t xs) (ofList t2 ys) z x1 x2 m).1 = .errAlloc ∧
+    (SList.zipAdd (ofList t xs) (ofList t2 ys) z x1 x2 m).2.1 = ofList t xs ∧
+    (SList.zipAdd (ofList t xs) (ofList t2 ys) z x1 x2 m).2.2.1 = ofList t2 ys ∧
+    (SList.zipAdd (ofList t xs) (ofList t2 ys) z x1 x2 m).2.2.2.1 = z ∧
+    (SList.zipAdd (ofList t xs) (ofList t2 ys) z x1 x2 m).2.2.2.2.fault = m.fault ∧
+    (∀ t', (SList.zipAdd (ofList t xs) (ofList t2 ys) z x1 x2 m).2.2.2.2.liveT t' = m.liveT t') := by
+  obtain ⟨z', e, _⟩ := SList.zipAdd_ofList (t := t) (t2 := t2) xs ys c z x1 x2 k m h hc
+  obtain ⟨l1, l2⟩ := zip_refused_ledger t t2 m
+  rw [e]
+  by_cases h1 : (m.allocT t).1 = true
+  · have h2 : ((m.allocT t).2.allocT t2).1 = false := by
+      rcases hr with hr | hr
+      · rw [h1] at hr; cases hr
+      · exact hr
+    rw [if_pos h1, if_neg (by rw [h2]; simp)]
+    exact ⟨rfl, rfl, rfl, rfl, (l2 h1 h2).1, (l2 h1 h2).2⟩
+  · have h1' : (m.allocT t).1 = false := by simpa using h1
+    rw [if_neg h1]
+    exact ⟨rfl, rfl, rfl, rfl, (l1 h1').1, (l1 h1').2⟩
 
 /-- refused builders produce **no object** and give every block back; refused array-based sorts
 leave the list unchanged -/
 theorem builder_and_sort_atomic (add : List Nat) (l : Chain) (h : l.Inv) (m : Mem)
     {cmp : Nat → Nat → Int} {sortFn : List Nat → List Nat} (hq : C18List.SortFnSpec cmp sortFn) :
-    ((DList.builderResult add m).1 = .errAlloc → (DList.builderResult add m).2.1 = none ∧ (DList.builderResult add m).2.2.live = m.live) ∧
-    (l.abs ≠ [] → m.alloc.1 = false → (DList.sort sortFn l m).1 = .errAlloc ∧ (DList.sort sortFn l m).2.1 = l ∧ (DList.sort sortFn l m).2.2.live = m.live) ∧
-    (l.abs.length ≠ 1 → m.alloc.1 = false → (SList.sort sortFn l m).1 = .errAlloc ∧ (SList.sort sortFn l m).2.1 = l ∧ (SList.sort sortFn l m).2.2.live = m.live) := by
+    ((DList.builderResult l.triple add m).1 = .errAlloc →
+      (DList.builderResult l.triple add m).2.1 = none ∧ (DList.builderResult l.triple add m).2.2.liveT l.triple = m.liveT l.triple ∧
+      Mem.Frame l.triple m (DList.builderResult l.triple add m).2.2) ∧
+    (l.abs ≠ [] → (m.allocT l.triple).1 = false →
+      (DList.sort sortFn l m).1 = .errAlloc ∧ (DList.sort sortFn l m).2.1 = l ∧ ∀ t, (DList.sort sortFn l m).2.2.liveT t = m.liveT t) ∧
+    (l.abs.length ≠ 1 → (m.allocT l.triple).1 = false →
+      (SList.sort sortFn l m).1 = .errAlloc ∧ (SList.sort sortFn l m).2.1 = l ∧ ∀ t, (SList.sort sortFn l m).2.2.liveT t = m.liveT t) := by
   have d := C18List.dlist_sort_correct hq l m h
   have s := C18List.slist_sort_correct hq l m h
-  exact ⟨(C15List.builder_result add m).2.2.2.2,
-    fun h1 h2 => ⟨(d.2.2.2.2.1 h1 h2).1, (d.2.2.2.2.1 h1 h2).2, d.2.2.1⟩,
-    fun h1 h2 => ⟨(s.2.2.2.2.1 h1 h2).1, (s.2.2.2.2.1 h1 h2).2, s.2.2.1⟩⟩
+  have b := C15List.builder_result l.triple add m
+  exact ⟨fun he => ⟨(b.2.2.2.2 he).1, (b.2.2.2.2 he).2, b.2.1⟩,
+    fun h1 h2 => ⟨(d.2.2.2.2.2.1 h1 h2).1, (d.2.2.2.2.2.1 h1 h2).2, d.2.2.2.1⟩,
+    fun h1 h2 => ⟨(s.2.2.2.2.2.1 h1 h2).1, (s.2.2.2.2.2.1 h1 h2).2, s.2.2.2.1⟩⟩
 
 /-! ## the container stays fully usable: the failed call might never have happened -/
 
@@ -136,42 +197,49 @@ were in, so whatever history follows produces the same outputs and the same stat
 have produced without the failed call — compared under any ledger that will answer the coming
 allocator calls the same way -/
 theorem dlist_continue (P : Params) (s : Chain × Chain) (op : Op) (m : Mem) (h : PairOk s m)
-    (he : (DList.step P s op m).1.st = some .errAlloc) (ops : List Op) (m2 : Mem) (h2 : PairOk s m2)
+    (hc : SpliceOk s.1.triple s.2.triple op)
+    (he : (DList.step P s op m).1.st = some .errAlloc) (ops : List Op) (hcc : Compat s ops) (m2 : Mem) (h2 : PairOk s m2)
     (hs : m2.sched = (DList.step P s op m).2.2.sched) :
     (DList.run P (DList.step P s op m).2.1 ops (DList.step P s op m).2.2).1 = (DList.run P s ops m2).1 ∧
     (DList.run P (DList.step P s op m).2.1 ops (DList.step P s op m).2.2).2.1 = (DList.run P s ops m2).2.1 := by
-  obtain ⟨_, hst, _, _, hp⟩ := dlist_atomic P s op m h he
+  obtain ⟨_, hst, _, _, hp⟩ := dlist_atomic P s op m h hc he
   rw [hst] at hp ⊢
   rw [dlist_run_eq, dlist_run_eq]
-  have := run_indep (C04.dlist_step_refines P) (DList.step_indep P) ops s _ m2 hp h2 hs.symm
+  have := run_indep (C04.dlist_step_refines P) (DList.step_indep P) ops s _ m2 hp h2 hcc hs.symm
   exact ⟨this.1, this.2.1⟩
 
 theorem slist_continue (P : Params) (s : Chain × Chain) (op : Op) (m : Mem) (h : PairOk s m)
-    (he : (SList.step P s op m).1.st = some .errAlloc) (ops : List Op) (m2 : Mem) (h2 : PairOk s m2)
+    (hc : SpliceOk s.1.triple s.2.triple op)
+    (he : (SList.step P s op m).1.st = some .errAlloc) (ops : List Op) (hcc : Compat s ops) (m2 : Mem) (h2 : PairOk s m2)
     (hs : m2.sched = (SList.step P s op m).2.2.sched) :
     (SList.run P (SList.step P s op m).2.1 ops (SList.step P s op m).2.2).1 = (SList.run P s ops m2).1 ∧
     (SList.run P (SList.step P s op m).2.1 ops (SList.step P s op m).2.2).2.1 = (SList.run P s ops m2).2.1 := by
-  obtain ⟨_, hst, _, _, hp⟩ := slist_atomic P s op m h he
+  obtain ⟨_, hst, _, _, hp⟩ := slist_atomic P s op m h hc he
   rw [hst] at hp ⊢
   rw [slist_run_eq, slist_run_eq]
-  have := run_indep (C04.slist_step_refines P) (SList.step_indep P) ops s _ m2 hp h2 hs.symm
+  have := run_indep (C04.slist_step_refines P) (SList.step_indep P) ops s _ m2 hp h2 hcc hs.symm
   exact ⟨this.1, this.2.1⟩
 
 /-- **whole histories**: under any refusal schedule the outputs and final contents are those of the
 ideal lists on which exactly the refused operations did not happen (`C04.*_history_refines_skipping`,
 restated for the reader of this property) -/
-theorem history_skips_refused (P : Params) (ops : List Op) (s : Chain × Chain) (m : Mem) (h : PairOk s m) :
+theorem history_skips_refused (P : Params) (ops : List Op) (s : Chain × Chain) (m : Mem) (h : PairOk s m) (hc : Compat s ops) :
     ((DList.run P s ops m).1 = (LSeq.runSkipping true P (s.1.abs, s.2.abs) ops ((DList.run P s ops m).1.map (·.st))).1 ∧
      ((DList.run P s ops m).2.1.1.abs, (DList.run P s ops m).2.1.2.abs) =
        (LSeq.runSkipping true P (s.1.abs, s.2.abs) ops ((DList.run P s ops m).1.map (·.st))).2) ∧
     ((SList.run P s ops m).1 = (LSeq.runSkipping false P (s.1.abs, s.2.abs) ops ((SList.run P s ops m).1.map (·.st))).1 ∧
      ((SList.run P s ops m).2.1.1.abs, (SList.run P s ops m).2.1.2.abs) =
        (LSeq.runSkipping false P (s.1.abs, s.2.abs) ops ((SList.run P s ops m).1.map (·.st))).2) :=
-  ⟨⟨(C04.dlist_history_refines_skipping P ops s m h).1, (C04.dlist_history_refines_skipping P ops s m h).2.1⟩,
-   ⟨(C04.slist_history_refines_skipping P ops s m h).1, (C04.slist_history_refines_skipping P ops s m h).2.1⟩⟩
+  ⟨⟨(C04.dlist_history_refines_skipping P ops s m h hc).1, (C04.dlist_history_refines_skipping P ops s m h hc).2.1⟩,
+   ⟨(C04.slist_history_refines_skipping P ops s m h hc).1, (C04.slist_history_refines_skipping P ops s m h hc).2.1⟩⟩
 
-/-! ## Non-vacuity: a schedule that refuses the second copy of `add_all` -/
-example : (DList.step ⟨fun _ => true, LSeq.cmpNum⟩ (ofList [1], ofList [7, 8, 9]) .addAll { live := 4, sched := [false, true] }).1.st = some .errAlloc ∧
-    (DList.step ⟨fun _ => true, LSeq.cmpNum⟩ (ofList [1], ofList [7, 8, 9]) .addAll { live := 4, sched := [false, true] }).2.2.live = 4 := by decide
+/-! ## Non-vacuity: a schedule that refuses the second copy of `add_all` (destination on the configured
+allocator, source on the C library) -/
+example : (DList.step ⟨fun _ => true, LSeq.cmpNum⟩ (ofList .conf [1], ofList .libc [7, 8, 9]) .addAll
+      { live := 1, liveLibc := 3, sched := [false, true] }).1.st = some .errAlloc ∧
+    (DList.step ⟨fun _ => true, LSeq.cmpNum⟩ (ofList .conf [1], ofList .libc [7, 8, 9]) .addAll
+      { live := 1, liveLibc := 3, sched := [false, true] }).2.2.live = 1 ∧
+    (DList.step ⟨fun _ => true, LSeq.cmpNum⟩ (ofList .conf [1], ofList .libc [7, 8, 9]) .addAll
+      { live := 1, liveLibc := 3, sched := [false, true] }).2.2.liveLibc = 3 := by decide
 
 end CC.Properties.C08List
